@@ -524,6 +524,9 @@ def dispatch_stream(ctx, drv):
             m = drv.ask({"op": "dispatch", "feat": f})["ok"]
             if m["model"] != m["gen"]:
                 ctx.disagree("dispatch-generated", case, m["model"], m["gen"], note="hand model vs the chain translated from the source")
+            if not m.get("consistent"):
+                ctx.disagree("dispatch-consistent", case, "Consistent (the tie theorems are stated for consistent fact vectors)", on,
+                             note="facts measured on a real object violate SerDispatch.Consistent")
             rb = real_branch(v)
             if rb != m["obs"]:
                 ctx.disagree("dispatch-branch", case, m["obs"], rb, note="branch taken by _serialize_value")
@@ -548,6 +551,10 @@ def dispatch_stream(ctx, drv):
             rb = real_branch(v)
             if rb != m["obs"]:
                 ctx.disagree("dispatch-encode", {"dispatch_value": r}, m, rb, note="branch shown by encode's node vs _serialize_value")
+            # the chain (hand model and text translated from the source) on the facts of this very object
+            d = drv.ask({"op": "dispatch", "feat": facts(v)})["ok"]
+            if d["obs"] != rb or d["model"] != d["gen"] or not d.get("consistent"):
+                ctx.disagree("dispatch-branch", {"dispatch_value": r}, d, rb, note="chain on the facts of a generated value vs _serialize_value")
             ctx.dist["dispatch-value:" + m["kind"]] += 1
     finally:
         shutil.rmtree(scratch, ignore_errors=True)
